@@ -168,6 +168,13 @@ func (s *store) probe(q *Req, rt *routeInfo) result {
 			if !ok || !c || !m {
 				res.symptom = fmt.Sprintf("%d-unstructured", res.status)
 			}
+		} else if obj, ok := first.(map[string]any); ok && len(obj) == 2 {
+			// the structured error document ({code, message}) sent with a success status: a client error that is not a 4xx
+			code, c := obj["code"].(string)
+			_, m := obj["message"].(string)
+			if c && m && (strings.HasPrefix(code, "Err") || strings.HasPrefix(code, "error")) {
+				res.symptom = fmt.Sprintf("%d-with-an-error-document", res.status)
+			}
 		}
 	}
 	// the header store is untouched
